@@ -117,6 +117,8 @@ structure Meta where
   duration : Int
   incomplete : Bool
   user : List (String × Val)     -- merged result of the metadata extractor
+  hasDuration : Bool := true     -- false only for a recording that was not made by the recorder (saved through the
+                                 -- cassette API without `_tape_recorder_recording_duration`)
   deriving DecidableEq, Repr, Inhabited
 
 abbrev Data := List (Key × RVal)
@@ -497,11 +499,13 @@ def runPlay (ao : AliasOracle) (cfg : OpCfg) (s : St) (id : Nat) (p : Prog) : St
     let (s2, _) := tick s2'                          -- `playback_duration = time() - start` in the finally block
     let outs := s2.playbackOutputs
     let s3 := { s2 with playback := none, playbackOutputs := [], counter := [] }
+    -- after the `finally` block: `recorded_duration = recording.get_metadata()[DURATION]` (KeyError without it)
+    let fin : PlayResult := if r.md.hasDuration then .played outs (extractOutputs r.data) else .raised "KeyError"
     match e with
     | .interrupt i => (s3, .interrupted i)
-    | .out (.ret _) => (s3, .played outs (extractOutputs r.data))
+    | .out (.ret _) => (s3, fin)
     | .out (.exc t) =>
-      if t == "OperationExceptionDuringPlayback" then (s3, .played outs (extractOutputs r.data))
+      if t == "OperationExceptionDuringPlayback" then (s3, fin)
       else (s3, .raised t)
 
 /-- the undecorated twin: every body runs, nothing else happens -/
